@@ -7,7 +7,8 @@
        derivative._qderiv_actuator_passive, derivative.deriv_rne_body2jnt_sparse (Gen/T_derivative.v),
        passive._spring_damper_dof_passive (Gen/T_passive.v),
      * the hand models of derivative._qderiv_actuator_passive_vel and forward._actuator_force
-       (Model/Deriv.v; tied to the real kernels by the correspondence run of bin/props/C27.py).
+       (Model/Deriv.v; tied to the real kernels by the correspondence run of bin/props/C27.py),
+     * the translated util_misc.muscle_gain / muscle_gain_vel (FV curve, away from its breakpoints).
    Not covered here (oracle only, bin/props/C27.py): the RNE forward/backward passes, the fluid
    derivative kernels, the tendon-damping kernel, float32 rounding. *)
 From Coq Require Import ZArith Reals List Bool Lra Lia String.
@@ -363,23 +364,150 @@ Lemma locally_preimage (G : R -> R) (v0 : R) (P : R -> Prop) :
   continuous G v0 -> open P -> P (G v0) -> locally v0 (fun v => P (G v)).
 Proof. intros Hc Ho HP. apply (Hc P). apply Ho. exact HP. Qed.
 
+(* ---- muscle force-velocity curve ---- *)
+Definition MINV : R := @MINVAL R ScalarR.
+Lemma MINV_pos : 0 < MINV.
+Proof. unfold MINV, MINVAL, slit. sR. apply Rdiv_lt_0_compat; lra. Qed.
+Lemma smax_MINV_pos x : 0 < smax MINV x.
+Proof. unfold smax. sR. unfold Rltb. pose proof MINV_pos. destruct (Rlt_dec MINV x); lra. Qed.
+
+(* FV and its claimed derivative, as util_misc.muscle_gain / muscle_gain_vel compute them *)
+Definition FVc (fvmax V : R) : R :=
+  let y := fvmax - 1 in
+  if Rleb V (- 1) then 0
+  else if Rleb V 0 then (V + 1) * (V + 1)
+  else if Rleb V y then fvmax - ((y - V) * (y - V)) / smax MINV y
+  else fvmax.
+Definition dFVc (fvmax V : R) : R :=
+  let y := fvmax - 1 in
+  if Rleb V (- 1) then 0
+  else if Rleb V 0 then 2 * V + 2
+  else if Rleb V y then (2 * (y - V)) / smax MINV y
+  else 0.
+
+Lemma FVc_derive fvmax V0 :
+  V0 <> -1 -> V0 <> 0 -> V0 <> fvmax - 1 -> is_derive (FVc fvmax) V0 (dFVc fvmax V0).
+Proof.
+  intros H1 H2 H3. set (y := fvmax - 1) in *.
+  assert (Hm : smax MINV y <> 0) by (pose proof (smax_MINV_pos y); lra).
+  set (m := smax MINV y) in *.
+  destruct (Rlt_dec V0 (-1)) as [Ha|Ha].
+  { (* V < -1 *)
+    apply (is_derive_ext_loc (fun _ => 0)).
+    - assert (Hl : locally V0 (fun V => V < -1)) by (apply (open_lt (-1)); exact Ha).
+      revert Hl. apply filter_imp. intros V HV. unfold FVc.
+      replace (Rleb V (-1)) with true by (symmetry; apply Rleb_true; lra). reflexivity.
+    - unfold dFVc. replace (Rleb V0 (-1)) with true by (symmetry; apply Rleb_true; lra). apply @is_derive_const. }
+  destruct (Rlt_dec V0 0) as [Hb|Hb].
+  { (* -1 < V < 0 *)
+    apply (is_derive_ext_loc (fun V => (V + 1) * (V + 1))).
+    - assert (Hl : locally V0 (fun V => -1 < V /\ V < 0)) by (apply (open_and _ _ (open_gt (-1)) (open_lt 0)); lra).
+      revert Hl. apply filter_imp. intros V [HV1 HV2]. unfold FVc.
+      replace (Rleb V (-1)) with false by (symmetry; apply Rleb_false; lra).
+      replace (Rleb V 0) with true by (symmetry; apply Rleb_true; lra). reflexivity.
+    - unfold dFVc. replace (Rleb V0 (-1)) with false by (symmetry; apply Rleb_false; lra).
+      replace (Rleb V0 0) with true by (symmetry; apply Rleb_true; lra). ad. }
+  destruct (Rlt_dec V0 y) as [Hc|Hc].
+  { (* 0 < V < y *)
+    apply (is_derive_ext_loc (fun V => fvmax - ((y - V) * (y - V)) * / m)).
+    - assert (Hl : locally V0 (fun V => 0 < V /\ V < y)) by (apply (open_and _ _ (open_gt 0) (open_lt y)); lra).
+      revert Hl. apply filter_imp. intros V [HV1 HV2]. unfold FVc. fold y. fold m.
+      replace (Rleb V (-1)) with false by (symmetry; apply Rleb_false; lra).
+      replace (Rleb V 0) with false by (symmetry; apply Rleb_false; lra).
+      replace (Rleb V y) with true by (symmetry; apply Rleb_true; lra). reflexivity.
+    - unfold dFVc. fold y. fold m. replace (Rleb V0 (-1)) with false by (symmetry; apply Rleb_false; lra).
+      replace (Rleb V0 0) with false by (symmetry; apply Rleb_false; lra).
+      replace (Rleb V0 y) with true by (symmetry; apply Rleb_true; lra).
+      unfold Rdiv. generalize (/ m). intro im. ad. }
+  { (* V > 0, V > y *)
+    apply (is_derive_ext_loc (fun _ => fvmax)).
+    - assert (Hl : locally V0 (fun V => 0 < V /\ y < V)) by (apply (open_and _ _ (open_gt 0) (open_gt y)); lra).
+      revert Hl. apply filter_imp. intros V [HV1 HV2]. unfold FVc. fold y.
+      replace (Rleb V (-1)) with false by (symmetry; apply Rleb_false; lra).
+      replace (Rleb V 0) with false by (symmetry; apply Rleb_false; lra).
+      replace (Rleb V y) with false by (symmetry; apply Rleb_false; lra). reflexivity.
+    - unfold dFVc. fold y. replace (Rleb V0 (-1)) with false by (symmetry; apply Rleb_false; lra).
+      replace (Rleb V0 0) with false by (symmetry; apply Rleb_false; lra).
+      replace (Rleb V0 y) with false by (symmetry; apply Rleb_false; lra). apply @is_derive_const. }
+Qed.
+
+(* the velocity-independent factors of muscle_gain *)
+Definition mus_L0 (lr prm : list R) : R :=
+  (vget lr 1 - vget lr 0) / smax MINV (vget prm 1 - vget prm 0).
+Definition mus_c (lr prm : list R) : R := smax MINV (mus_L0 lr prm * vget prm 6).
+Definition mus_A (len : R) (lr : list R) (acc0 : R) (prm : list R) : R :=
+  let force := if Rltb (vget prm 2) 0 then vget prm 3 / smax MINV acc0 else vget prm 2 in
+  - force * U.muscle_gain_length (vget prm 0 + (len - vget lr 0) / smax MINV (mus_L0 lr prm)) (vget prm 4) (vget prm 5).
+(* normalised velocity V = vel / max(MINVAL, L0 * vmax) *)
+Definition mus_V (v : R) (lr prm : list R) : R := v / mus_c lr prm.
+
+Lemma muscle_gain_form len v lr acc0 prm :
+  U.muscle_gain len v lr acc0 prm = mus_A len lr acc0 prm * FVc (vget prm 8) (mus_V v lr prm).
+Proof. reflexivity. Qed.
+Lemma muscle_gain_vel_form len v lr acc0 prm :
+  U.muscle_gain_vel len v lr acc0 prm = mus_A len lr acc0 prm * dFVc (vget prm 8) (mus_V v lr prm) / mus_c lr prm.
+Proof. reflexivity. Qed.
+
+(* muscle_gain_vel is d muscle_gain / d vel away from the three breakpoints of the FV curve
+   (_partial: at V = -1, 0, fvmax-1 the curve is C1 only when fvmax - 1 >= MINVAL; not proved) *)
+Theorem muscle_gain_vel_correct_partial len v0 lr acc0 prm :
+  mus_V v0 lr prm <> -1 -> mus_V v0 lr prm <> 0 -> mus_V v0 lr prm <> vget prm 8 - 1 ->
+  is_derive (fun v => U.muscle_gain len v lr acc0 prm) v0 (U.muscle_gain_vel len v0 lr acc0 prm).
+Proof.
+  intros H1 H2 H3. rewrite muscle_gain_vel_form.
+  apply (is_derive_ext (fun v => mus_A len lr acc0 prm * FVc (vget prm 8) (mus_V v lr prm))).
+  { intro v. symmetry. apply muscle_gain_form. }
+  set (A := mus_A len lr acc0 prm). set (c := mus_c lr prm).
+  assert (Hc : c <> 0) by (unfold c, mus_c; pose proof (smax_MINV_pos (mus_L0 lr prm * vget prm 6)); lra).
+  replace (A * dFVc (vget prm 8) (mus_V v0 lr prm) / c) with (A * ((/ c) * dFVc (vget prm 8) (mus_V v0 lr prm))) by (field; exact Hc).
+  apply (is_derive_scal (fun v => FVc (vget prm 8) (mus_V v lr prm)) v0 A).
+  apply (is_derive_comp (FVc (vget prm 8)) (fun v => mus_V v lr prm) v0 (dFVc (vget prm 8) (mus_V v0 lr prm)) (/ c)).
+  - apply FVc_derive; assumption.
+  - unfold mus_V. fold c. unfold Rdiv. generalize (/ c). intro ic. ad.
+Qed.
+
+(* the hypotheses of muscle_gain_vel_correct_partial are satisfiable: lengthrange [0,1], range [0,1],
+   vmax 1, fvmax 2, velocity 1/2 gives V = 1/2, away from -1, 0 and fvmax - 1 = 1 *)
+Example muscle_regular_example :
+  let prm := [0; 1; 1; 1; 1/2; 3/2; 1; 1; 2] in
+  mus_V (1/2) [0; 1] prm = 1/2 /\
+  is_derive (fun v => U.muscle_gain (1/2) v [0; 1] 1 prm) (1/2) (U.muscle_gain_vel (1/2) (1/2) [0; 1] 1 prm).
+Proof.
+  cbv zeta.
+  assert (Hs : smax MINV 1 = 1).
+  { unfold smax. sR. unfold Rltb. destruct (Rlt_dec MINV 1) as [|Hn]; [reflexivity|].
+    exfalso. apply Hn. unfold MINV, MINVAL, slit. sR. apply Rmult_lt_reg_r with 1000000000000000; [lra|].
+    unfold Rdiv. rewrite Rmult_assoc, Rinv_l by lra. lra. }
+  assert (HV : mus_V (1/2) [0; 1] [0; 1; 1; 1; 1/2; 3/2; 1; 1; 2] = 1/2).
+  { unfold mus_V, mus_c, mus_L0.
+    change (vget [0; 1] 1) with 1. change (vget [0; 1] 0) with 0.
+    change (vget [0; 1; 1; 1; 1/2; 3/2; 1; 1; 2] 1) with 1. change (vget [0; 1; 1; 1; 1/2; 3/2; 1; 1; 2] 0) with 0.
+    change (vget [0; 1; 1; 1; 1/2; 3/2; 1; 1; 2] 6) with 1.
+    replace (1 - 0) with 1 by lra. rewrite Hs. replace (1 / 1 * 1) with 1 by lra. rewrite Hs. lra. }
+  split; [exact HV|].
+  apply muscle_gain_vel_correct_partial; rewrite HV;
+    try change (vget [0; 1; 1; 1; 1/2; 3/2; 1; 1; 2] 8) with 2; lra.
+Qed.
+
 Section Act.
   Variables (na : Z) (h : R) (dyntype gaintype biastype actadr actnum : Z)
             (dynprm gainprm biasprm : list R) (actlimited : bool) (actrange : list R)
             (actearly forcelimited : bool) (forcerange : list R) (ctrllimited : bool) (ctrlrange : list R)
+            (acc0 : R) (lengthrange : list R)
             (act_in : list R) (ctrl len : R) (dsbl : Z) (act_dot_in : list R).
 
   Definition Fm (fl : bool) (v : R) : R * R :=
     actuator_force_model na h dyntype gaintype biastype actadr actnum dynprm gainprm biasprm actlimited actrange
-      actearly fl forcerange ctrllimited ctrlrange act_in ctrl len v dsbl.
+      actearly fl forcerange ctrllimited ctrlrange acc0 lengthrange act_in ctrl len v dsbl.
   (* force as a function of the actuator velocity, and the act_dot the same task stores *)
   Definition F (v : R) : R := snd (Fm forcelimited v).
   Definition Adot (v : R) : R := fst (Fm forcelimited v).
   (* the force before the forcerange clamp *)
   Definition Funclamped (v : R) : R := snd (Fm false v).
-  Definition Kval (force : R) : R :=
+  (* value stored by the derivative kernel, given the velocity and force it reads *)
+  Definition Kval (v force : R) : R :=
     qderiv_vel_model h dyntype gaintype biastype actadr actnum dynprm gainprm biasprm actlimited actrange
-      actearly forcelimited forcerange act_in ctrl act_dot_in force.
+      actearly forcelimited forcerange ctrllimited ctrlrange acc0 lengthrange act_in ctrl act_dot_in len v force dsbl.
 
   Let last := (actadr + actnum - 1)%Z.
   Let guard := negb (Z.eqb na 0) && Z.geb actadr 0.
@@ -387,104 +515,138 @@ Section Act.
   Let adot := if guard then
                 (if Z.eqb dyntype 1 then ctrlc
                  else if Z.eqb dyntype 2 || Z.eqb dyntype 3
-                      then sdiv (ssub ctrlc (vget act_in last)) (smax (vget dynprm 0) MINVAL) else 0)
+                      then sdiv (ssub ctrlc (vget act_in last)) (smax (vget dynprm 0) MINVAL)
+                      else if Z.eqb dyntype 4 then U.muscle_dynamics ctrlc (vget act_in last) dynprm else 0)
               else 0.
   Let cact := if guard then
                 (if actearly then VF.Gen.support_act.next_act h dyntype dynprm actrange (vget act_in last) adot 1 actlimited
                  else vget act_in last)
               else ctrlc.
-  Let gv := if Z.eqb gaintype 1 then vget gainprm 2 else 0.
+  Let gainf (v : R) : R :=
+    if Z.eqb gaintype 0 then vget gainprm 0
+    else if Z.eqb gaintype 1 then vget gainprm 0 + vget gainprm 1 * len + vget gainprm 2 * v
+    else if Z.eqb gaintype 2 then U.muscle_gain len v lengthrange acc0 gainprm else 0.
+  Let biasf (v : R) : R :=
+    if Z.eqb biastype 1 then vget biasprm 0 + vget biasprm 1 * len + vget biasprm 2 * v
+    else if Z.eqb biastype 2 then U.muscle_bias len lengthrange acc0 biasprm else 0.
+  Let gaind (v : R) : R :=
+    if Z.eqb gaintype 1 then vget gainprm 2
+    else if Z.eqb gaintype 2 then U.muscle_gain_vel len v lengthrange acc0 gainprm else 0.
   Let bv := if Z.eqb biastype 1 then vget biasprm 2 else 0.
-  Let g0 := if Z.eqb gaintype 0 then vget gainprm 0
-            else if Z.eqb gaintype 1 then vget gainprm 0 + vget gainprm 1 * len else 0.
-  Let b0 := if Z.eqb biastype 1 then vget biasprm 0 + vget biasprm 1 * len else 0.
   (* unclamped force *)
-  Let G (v : R) : R := (g0 * cact + b0) + (gv * cact + bv) * v.
+  Let G (v : R) : R := gainf v * cact + biasf v.
 
   Lemma Fm_eq fl v : Fm fl v = (adot, if fl then sclamp (G v) (vget forcerange 0) (vget forcerange 1) else G v).
   Proof.
     unfold Fm, actuator_force_model. fold last. fold guard. fold ctrlc.
-    unfold G, g0, b0, gv, bv, cact, adot.
-    destruct guard; destruct (Z.eqb gaintype 0) eqn:E0; destruct (Z.eqb gaintype 1) eqn:E1;
-      destruct (Z.eqb biastype 1) eqn:E2; destruct fl; cbv beta iota zeta; cbv [sadd smul sofZ ScalarR];
-      try (apply Z.eqb_eq in E0; apply Z.eqb_eq in E1; lia);
-      f_equal; try reflexivity; try (f_equal; ring); ring.
+    unfold G, gainf, biasf, cact, adot.
+    destruct guard; destruct fl; reflexivity.
   Qed.
 
-  Lemma G_derive v : is_derive G v (gv * cact + bv).
-  Proof. unfold G. ad. Qed.
+  (* the muscle FV curve is differentiated away from its breakpoints only *)
+  Definition muscle_regular (v0 : R) : Prop :=
+    gaintype = 2%Z ->
+    mus_V v0 lengthrange gainprm <> -1 /\ mus_V v0 lengthrange gainprm <> 0 /\
+    mus_V v0 lengthrange gainprm <> vget gainprm 8 - 1.
 
-  Hypothesis Hgain : gaintype <> 2%Z /\ gaintype <> 3%Z.
-  Hypothesis Hbias : biastype <> 2%Z /\ biastype <> 3%Z.
+  Lemma gainf_derive v0 : muscle_regular v0 -> is_derive gainf v0 (gaind v0).
+  Proof.
+    intro Hm. unfold gainf, gaind.
+    destruct (Z.eqb gaintype 0) eqn:E0.
+    { apply Z.eqb_eq in E0. replace (Z.eqb gaintype 1) with false by (symmetry; apply Z.eqb_neq; lia).
+      replace (Z.eqb gaintype 2) with false by (symmetry; apply Z.eqb_neq; lia). apply @is_derive_const. }
+    destruct (Z.eqb gaintype 1) eqn:E1. { ad. }
+    destruct (Z.eqb gaintype 2) eqn:E2; [| apply @is_derive_const].
+    apply Z.eqb_eq in E2. destruct (Hm E2) as (H1 & H2 & H3).
+    apply muscle_gain_vel_correct_partial; assumption.
+  Qed.
 
-  (* what the derivative kernel computes, for the non-muscle non-DC-motor types *)
+  Lemma biasf_derive v0 : is_derive biasf v0 bv.
+  Proof.
+    unfold biasf, bv. destruct (Z.eqb biastype 1). { ad. }
+    destruct (Z.eqb biastype 2); apply @is_derive_const.
+  Qed.
+
+  Lemma G_derive v0 : muscle_regular v0 -> is_derive G v0 (gaind v0 * cact + bv).
+  Proof.
+    intro Hm. unfold G.
+    apply (is_derive_plus (fun v => gainf v * cact) biasf v0 (gaind v0 * cact) bv).
+    - apply (is_derive_ext (fun v => cact * gainf v)). { intro v. rring. }
+      replace (gaind v0 * cact) with (cact * gaind v0) by ring.
+      apply (is_derive_scal gainf v0 cact (gaind v0)). apply gainf_derive. exact Hm.
+    - apply biasf_derive.
+  Qed.
+
+  Hypothesis Hgain : gaintype <> 3%Z.
+  Hypothesis Hbias : biastype <> 3%Z.
+
+  (* what the derivative kernel multiplies the gain's velocity coefficient with *)
   Let actk := if negb (Z.eqb dyntype 0)
               then (if actearly then VF.Gen.support_act.next_act h dyntype dynprm actrange (vget act_in last) (vget act_dot_in last) 1 actlimited
                     else vget act_in last)
-              else ctrl.
-  Lemma Kval_eq force :
-    Kval force =
-      if Reqb (0 + bv) 0 && Reqb gv 0 then 0
+              else ctrlc.
+  (* the kernel's own bias accumulator (0, or 0 + biasprm[2]) *)
+  Let bk := if Z.eqb biastype 1 then 0 + vget biasprm 2 else 0.
+  Lemma bk_bv : bk = bv.
+  Proof. unfold bk, bv. destruct (Z.eqb biastype 1); lra. Qed.
+
+  Lemma Kval_eq v force :
+    Kval v force =
+      if Reqb bk 0 && Reqb (gaind v) 0 then 0
       else if forcelimited && (Rleb force (vget forcerange 0) || Rleb (vget forcerange 1) force) then 0
-      else if Reqb gv 0 then 0 + bv else 0 + bv + gv * actk.
+      else if Reqb (gaind v) 0 then bk else bk + gaind v * actk.
   Proof.
-    unfold Kval, qderiv_vel_model. fold last.
-    destruct Hgain as [Hg2 Hg3]. destruct Hbias as [Hb2 Hb3].
-    replace (Z.eqb gaintype 3) with false by (symmetry; apply Z.eqb_neq; exact Hg3).
-    replace (Z.eqb biastype 3) with false by (symmetry; apply Z.eqb_neq; exact Hb3).
-    unfold gv, bv, actk.
-    destruct (Z.eqb gaintype 1); destruct (Z.eqb biastype 1); cbv zeta; sR;
-      repeat match goal with
-        | |- context [Reqb ?a ?b] => destruct (Reqb a b) eqn:?; simpl
-        | |- context [if forcelimited then _ else _] => destruct forcelimited; simpl
-        | |- context [Rleb ?a ?b] => destruct (Rleb a b) eqn:?; simpl
-        | |- context [Z.eqb dyntype 0] => destruct (Z.eqb dyntype 0); simpl
-        end; try reflexivity; try congruence;
-      repeat match goal with
-        | H : Reqb _ _ = true |- _ => apply Reqb_true in H
-        | H : Reqb _ _ = false |- _ => apply Reqb_false in H
-        end;
-      try (destruct forcelimited; simpl); try reflexivity; try lra; try (exfalso; lra).
+    unfold Kval, qderiv_vel_model. fold last. fold ctrlc.
+    replace (Z.eqb gaintype 3) with false by (symmetry; apply Z.eqb_neq; exact Hgain).
+    replace (Z.eqb biastype 3) with false by (symmetry; apply Z.eqb_neq; exact Hbias).
+    unfold gaind, bk, actk.
+    destruct (Z.eqb gaintype 1); [| destruct (Z.eqb gaintype 2)]; destruct (Z.eqb biastype 1); cbv zeta;
+      cbv [sadd smul sofZ seqb sleb sgeb sneb ScalarR];
+      match goal with |- context [Reqb ?a 0 && Reqb ?b 0] => destruct (Reqb a 0); destruct (Reqb b 0) eqn:Eg end;
+      simpl andb; cbv iota; try reflexivity;
+      destruct (forcelimited && _); try reflexivity;
+      destruct (Z.eqb dyntype 0); simpl negb; cbv iota; try reflexivity.
   Qed.
 
   Section AtV.
     Variable v0 : R.
     (* consistent model: no activation state <-> dyntype NONE *)
     Hypothesis Hdyn : (dyntype = 0%Z /\ guard = false) \/ (dyntype <> 0%Z /\ guard = true).
-    (* ctrl is not clamped by ctrlrange (see actuator_vel_deriv_clamped_ctrl_refuted) *)
-    Hypothesis Hctrl : ctrllimited = false \/ dsbl <> 0%Z \/ vget ctrlrange 0 <= ctrl <= vget ctrlrange 1.
     (* d.act_dot holds what the force kernel stored *)
     Hypothesis Hadot : dyntype <> 0%Z -> vget act_dot_in last = Adot v0.
+    Hypothesis Hmus : muscle_regular v0.
 
     Lemma actk_cact : actk = cact.
     Proof.
       unfold actk, cact.
-      assert (Hc : ctrlc = ctrl).
-      { unfold ctrlc. destruct Hctrl as [Hcl | [Hd | Hin]]; [rewrite Hcl; reflexivity | |].
-        - replace (Z.eqb dsbl 0) with false by (symmetry; apply Z.eqb_neq; exact Hd). rewrite andb_false_r. reflexivity.
-        - destruct (ctrllimited && Z.eqb dsbl 0); [apply sclamp_inside_le; exact Hin | reflexivity]. }
       destruct Hdyn as [[Hd Hg] | [Hd Hg]]; rewrite Hg.
-      - rewrite Hd. simpl. symmetry; exact Hc.
+      - rewrite Hd. reflexivity.
       - replace (Z.eqb dyntype 0) with false by (symmetry; apply Z.eqb_neq; exact Hd). simpl.
         case_eq actearly; intro Eae; [|reflexivity].
         rewrite (Hadot Hd). unfold Adot. rewrite Fm_eq. simpl. reflexivity.
     Qed.
 
+    Lemma Kval_interior :
+      (if Reqb bk 0 && Reqb (gaind v0) 0 then 0
+       else if Reqb (gaind v0) 0 then bk else bk + gaind v0 * cact) = gaind v0 * cact + bv.
+    Proof.
+      rewrite bk_bv.
+      destruct (Reqb bv 0) eqn:Eb; destruct (Reqb (gaind v0) 0) eqn:Eg; simpl;
+        try (apply Reqb_true in Eb); try (apply Reqb_true in Eg); try rewrite Eg; try lra.
+    Qed.
+
     (* not clamped by forcerange: the kernel's own test on the stored force fails *)
-    Theorem actuator_vel_deriv_affine :
+    Theorem actuator_vel_deriv :
       (forcelimited = false \/ vget forcerange 0 < F v0 < vget forcerange 1) ->
-      is_derive F v0 (Kval (F v0)).
+      is_derive F v0 (Kval v0 (F v0)).
     Proof.
       intros Hfr. rewrite Kval_eq. rewrite actk_cact.
       assert (HF : forall v, F v = if forcelimited then sclamp (G v) (vget forcerange 0) (vget forcerange 1) else G v).
       { intro v. unfold F. rewrite Fm_eq. reflexivity. }
-      assert (Hval : (if Reqb (0 + bv) 0 && Reqb gv 0 then 0
-                      else if Reqb gv 0 then 0 + bv else 0 + bv + gv * cact) = gv * cact + bv).
-      { destruct (Reqb (0 + bv) 0) eqn:Eb; destruct (Reqb gv 0) eqn:Eg; simpl;
-          try (apply Reqb_true in Eb); try (apply Reqb_true in Eg); try rewrite Eg; try lra. }
+      pose proof Kval_interior as Hval.
       destruct Hfr as [Hfl | Hin].
       - rewrite Hfl. simpl andb. cbv iota. rewrite Hval.
-        apply (is_derive_ext G). { intro v. rewrite HF, Hfl. reflexivity. } apply G_derive.
+        apply (is_derive_ext G). { intro v. rewrite HF, Hfl. reflexivity. } apply G_derive. exact Hmus.
       - assert (Hnot : (Rleb (F v0) (vget forcerange 0) || Rleb (vget forcerange 1) (F v0)) = false).
         { apply orb_false_iff. split; apply Rleb_false; lra. }
         rewrite Hnot, andb_false_r. rewrite Hval.
@@ -494,24 +656,24 @@ Section Act.
           apply (is_derive_ext_loc G).
           * assert (Hl : locally v0 (fun v => vget forcerange 0 < G v < vget forcerange 1)).
             { apply (locally_preimage G v0 (fun y => vget forcerange 0 < y < vget forcerange 1)).
-              - apply (ex_derive_continuous G v0). eexists. apply G_derive.
+              - apply (ex_derive_continuous G v0). eexists. apply G_derive. exact Hmus.
               - apply open_and; [apply open_gt | apply open_lt].
               - rewrite HG0. exact Hin. }
             revert Hl. apply filter_imp. intros v Hv. rewrite HF'. symmetry. apply sclamp_inside. exact Hv.
-          * apply G_derive.
-        + apply (is_derive_ext G). { intro v. rewrite HF, Efl. reflexivity. } apply G_derive.
+          * apply G_derive. exact Hmus.
+        + apply (is_derive_ext G). { intro v. rewrite HF, Efl. reflexivity. } apply G_derive. exact Hmus.
     Qed.
 
     (* clamped by forcerange (strictly outside): the force is locally constant, the kernel stores 0 *)
     Theorem actuator_vel_deriv_forceclamped :
       forcelimited = true -> vget forcerange 0 <= vget forcerange 1 ->
       (Funclamped v0 < vget forcerange 0 \/ vget forcerange 1 < Funclamped v0) ->
-      is_derive F v0 0 /\ Kval (F v0) = 0.
+      is_derive F v0 0 /\ Kval v0 (F v0) = 0.
     Proof.
       intros Hfl Hle Hout. unfold Funclamped in Hout. rewrite Fm_eq in Hout. simpl snd in Hout.
       assert (HF : forall v, F v = sclamp (G v) (vget forcerange 0) (vget forcerange 1)).
       { intro v. unfold F. rewrite Fm_eq. rewrite Hfl. reflexivity. }
-      assert (Hc : continuous G v0) by (apply (ex_derive_continuous G v0); eexists; apply G_derive).
+      assert (Hc : continuous G v0) by (apply (ex_derive_continuous G v0); eexists; apply G_derive; exact Hmus).
       split.
       - destruct Hout as [Hlo | Hhi].
         + apply (is_derive_ext_loc (fun _ => vget forcerange 0)).
@@ -529,40 +691,93 @@ Section Act.
         { rewrite HF. destruct Hout as [Hlo | Hhi].
           - rewrite sclamp_below by assumption. apply orb_true_iff. left. apply Rleb_true. lra.
           - rewrite sclamp_above by assumption. apply orb_true_iff. right. apply Rleb_true. lra. }
-        rewrite Ht. simpl. destruct (Reqb (0 + bv) 0 && Reqb gv 0); reflexivity.
+        rewrite Ht. simpl. destruct (Reqb bk 0 && Reqb (gaind v0) 0); reflexivity.
     Qed.
   End AtV.
 End Act.
 
-(* ---- the faithful model REFUTES the property when ctrl is clamped by ctrlrange ----
-   _actuator_force multiplies the affine gain with the CLAMPED ctrl, the derivative kernel
-   with the raw ctrl_in.  dyntype none, gain = 1 + 2*velocity, ctrlrange [-1, 1], ctrl = 3:
-   force(v) = (1 + 2 v) * 1, so d force / d v = 2, while the kernel stores 2 * 3 = 6. *)
-Theorem actuator_vel_deriv_clamped_ctrl_refuted :
-  exists (h : R) (gainprm ctrlrange : list R) (ctrl v0 : R),
-    let Fx := F 0 h 0 1 0 (-1) 0 [] gainprm [] false [] false false [] true ctrlrange [] ctrl 0 0 in
-    let K := Kval h 0 1 0 (-1) 0 [] gainprm [] false [] false false [] [] ctrl [] (Fx v0) in
-    is_derive Fx v0 2 /\ K = 6 /\ ~ is_derive Fx v0 K.
+(* the statements used by Props/C27.v: the hand model of _actuator_force does not cover DC-motor
+   dynamics (dyntype 5), so that case is excluded explicitly *)
+Theorem actuator_vel_deriv_nodc :
+  forall (na : Z) (h : R) (dyntype gaintype biastype actadr actnum : Z)
+         (dynprm gainprm biasprm : list R) (actlimited : bool) (actrange : list R)
+         (actearly forcelimited : bool) (forcerange : list R) (ctrllimited : bool) (ctrlrange : list R)
+         (acc0 : R) (lengthrange act_in : list R) (ctrl len : R) (dsbl : Z) (act_dot_in : list R),
+    dyntype <> 5%Z -> gaintype <> 3%Z -> biastype <> 3%Z ->
+    forall v0 : R,
+      (dyntype = 0%Z /\ (negb (na =? 0)%Z && (actadr >=? 0)%Z)%bool = false \/
+       dyntype <> 0%Z /\ (negb (na =? 0)%Z && (actadr >=? 0)%Z)%bool = true) ->
+      (dyntype <> 0%Z ->
+       vget act_dot_in (actadr + actnum - 1) =
+       Adot na h dyntype gaintype biastype actadr actnum dynprm gainprm biasprm actlimited actrange actearly
+         forcelimited forcerange ctrllimited ctrlrange acc0 lengthrange act_in ctrl len dsbl v0) ->
+      muscle_regular gaintype gainprm lengthrange v0 ->
+      (forcelimited = false \/
+       vget forcerange 0 <
+         F na h dyntype gaintype biastype actadr actnum dynprm gainprm biasprm actlimited actrange actearly
+           forcelimited forcerange ctrllimited ctrlrange acc0 lengthrange act_in ctrl len dsbl v0 < vget forcerange 1) ->
+      is_derive
+        (F na h dyntype gaintype biastype actadr actnum dynprm gainprm biasprm actlimited actrange actearly
+           forcelimited forcerange ctrllimited ctrlrange acc0 lengthrange act_in ctrl len dsbl) v0
+        (Kval h dyntype gaintype biastype actadr actnum dynprm gainprm biasprm actlimited actrange actearly
+           forcelimited forcerange ctrllimited ctrlrange acc0 lengthrange act_in ctrl len dsbl act_dot_in v0
+           (F na h dyntype gaintype biastype actadr actnum dynprm gainprm biasprm actlimited actrange actearly
+              forcelimited forcerange ctrllimited ctrlrange acc0 lengthrange act_in ctrl len dsbl v0)).
+Proof. intros. apply actuator_vel_deriv; assumption. Qed.
+
+Theorem actuator_vel_deriv_forceclamped_nodc :
+  forall (na : Z) (h : R) (dyntype gaintype biastype actadr actnum : Z)
+         (dynprm gainprm biasprm : list R) (actlimited : bool) (actrange : list R)
+         (actearly forcelimited : bool) (forcerange : list R) (ctrllimited : bool) (ctrlrange : list R)
+         (acc0 : R) (lengthrange act_in : list R) (ctrl len : R) (dsbl : Z) (act_dot_in : list R),
+    dyntype <> 5%Z -> gaintype <> 3%Z -> biastype <> 3%Z ->
+    forall v0 : R,
+      muscle_regular gaintype gainprm lengthrange v0 ->
+      forcelimited = true -> vget forcerange 0 <= vget forcerange 1 ->
+      (Funclamped na h dyntype gaintype biastype actadr actnum dynprm gainprm biasprm actlimited actrange actearly
+         forcerange ctrllimited ctrlrange acc0 lengthrange act_in ctrl len dsbl v0 < vget forcerange 0 \/
+       vget forcerange 1 <
+       Funclamped na h dyntype gaintype biastype actadr actnum dynprm gainprm biasprm actlimited actrange actearly
+         forcerange ctrllimited ctrlrange acc0 lengthrange act_in ctrl len dsbl v0) ->
+      is_derive
+        (F na h dyntype gaintype biastype actadr actnum dynprm gainprm biasprm actlimited actrange actearly
+           forcelimited forcerange ctrllimited ctrlrange acc0 lengthrange act_in ctrl len dsbl) v0 0 /\
+      Kval h dyntype gaintype biastype actadr actnum dynprm gainprm biasprm actlimited actrange actearly
+        forcelimited forcerange ctrllimited ctrlrange acc0 lengthrange act_in ctrl len dsbl act_dot_in v0
+        (F na h dyntype gaintype biastype actadr actnum dynprm gainprm biasprm actlimited actrange actearly
+           forcelimited forcerange ctrllimited ctrlrange acc0 lengthrange act_in ctrl len dsbl v0) = 0.
+Proof. intros. apply actuator_vel_deriv_forceclamped; assumption. Qed.
+
+(* ---- regression witness of the repaired defect C27:_qderiv_actuator_passive_vel:ctrl-not-clamped ----
+   dyntype none, gain = 1 + 2*velocity, ctrlrange [-1, 1], ctrl = 3 (clamped to 1):
+   force(v) = (1 + 2 v) * 1, d force / d v = 2, and the kernel (since /repo 62f359e) stores 2 * clamp(3) = 2.
+   Before the repair it stored 2 * 3 = 6. *)
+Theorem actuator_vel_deriv_clamped_ctrl_witness :
+  let Fx := F 0 (1/500) 0 1 0 (-1) 0 [] [1; 0; 2] [] false [] false false [] true [-1; 1] 1 [-1; 1] [] 3 0 0 in
+  let K := Kval (1/500) 0 1 0 (-1) 0 [] [1; 0; 2] [] false [] false false [] true [-1; 1] 1 [-1; 1] [] 3 0 0 [] 0 (Fx 0) in
+  K = 2 /\ is_derive Fx 0 K.
 Proof.
-  exists (1/500), [1; 0; 2], [-1; 1], 3, 0. cbv zeta.
+  cbv zeta.
+  assert (HD : is_derive (F 0 (1/500) 0 1 0 (-1) 0 [] [1; 0; 2] [] false [] false false [] true [-1; 1] 1 [-1; 1] [] 3 0 0) 0
+                 (Kval (1/500) 0 1 0 (-1) 0 [] [1; 0; 2] [] false [] false false [] true [-1; 1] 1 [-1; 1] [] 3 0 0 [] 0
+                    (F 0 (1/500) 0 1 0 (-1) 0 [] [1; 0; 2] [] false [] false false [] true [-1; 1] 1 [-1; 1] [] 3 0 0 0))).
+  { apply actuator_vel_deriv.
+    - discriminate.
+    - discriminate.
+    - left. split; reflexivity.
+    - intro Hc. exfalso. apply Hc. reflexivity.
+    - intro Hc. discriminate Hc.
+    - left. reflexivity. }
+  split; [| exact HD].
   assert (Hc : sclamp 3 (-1) 1 = 1).
   { unfold sclamp, smin, smax. sR. unfold Rltb.
     destruct (Rlt_dec 3 (-1)); [lra|]. destruct (Rlt_dec 1 3); [reflexivity | lra]. }
-  assert (HF : forall v, F 0 (1/500) 0 1 0 (-1) 0 [] [1;0;2] [] false [] false false [] true [-1;1] [] 3 0 0 v = 1 + 2 * v).
-  { intro v. unfold F, Fm, actuator_force_model. simpl. sR. simpl. fold (@sclamp R ScalarR 3 (-1) 1).
-    change (vget [-1; 1] 0) with (-1). change (vget [-1;1] 1) with 1. rewrite ?Hc. change (vget [1; 0; 2] 0) with 1. change (vget [1; 0; 2] 1) with 0. change (vget [1; 0; 2] 2) with 2. ring. }
-  assert (HD : is_derive (F 0 (1/500) 0 1 0 (-1) 0 [] [1;0;2] [] false [] false false [] true [-1;1] [] 3 0 0) 0 2).
-  { apply (is_derive_ext (fun v => 1 + 2 * v)). { intro v. symmetry. apply HF. } ad. }
-  assert (HK : Kval (1/500) 0 1 0 (-1) 0 [] [1;0;2] [] false [] false false [] [] 3 []
-                 (F 0 (1/500) 0 1 0 (-1) 0 [] [1;0;2] [] false [] false false [] true [-1;1] [] 3 0 0 0) = 6).
-  { unfold Kval, qderiv_vel_model. cbv zeta. simpl Z.eqb. cbv iota. simpl negb. cbv iota. simpl andb.
-    change (vget [1; 0; 2] 2) with 2. sR.
-    replace (Reqb 0 0) with true by (symmetry; apply Reqb_true; lra).
-    replace (Reqb 2 0) with false by (symmetry; apply Reqb_false; lra).
-    simpl. lra. }
-  split; [exact HD | split; [exact HK |]].
-  rewrite HK. intro H6.
-  pose proof (is_derive_unique _ _ _ HD) as U2. pose proof (is_derive_unique _ _ _ H6) as U6. lra.
+  unfold Kval, qderiv_vel_model. cbv zeta. simpl Z.eqb. cbv iota. simpl negb. cbv iota. simpl andb. cbv iota.
+  change (vget [1; 0; 2] 2) with 2. change (vget [-1; 1] 0) with (-1). change (vget [-1; 1] 1) with 1.
+  cbv [sadd smul sofZ seqb sneb ScalarR].
+  replace (Reqb 0 0) with true by (symmetry; apply Reqb_true; lra).
+  replace (Reqb 2 0) with false by (symmetry; apply Reqb_false; lra).
+  simpl. match goal with |- 0 + 2 * ?x = 2 => change x with (@sclamp R ScalarR 3 (-1) 1) end. rewrite Hc. lra.
 Qed.
 
 (* ---- deriv_rne_body2jnt_sparse: with flg_subtract = false (what implicit() passes since the
@@ -575,19 +790,19 @@ Theorem rne_body2jnt_adds :
          (VS (timestep (Z.rem w sh) * vdot (cdof_in w (Di e)) (Dcfrc w (dof_bodyid (Di e)) (Dj e))))].
 Proof. intros. unfold TD.k_deriv_rne_body2jnt_sparse. destruct flg; reflexivity. Qed.
 
-(* non-vacuity of actuator_vel_deriv_affine: integrator dynamics, affine gain and bias, ctrl inside
+(* non-vacuity of actuator_vel_deriv: integrator dynamics, affine gain and bias, ctrl inside
    its range, act_dot consistent with the force kernel *)
 Example actuator_vel_deriv_affine_example :
-  let adot := Adot 1 (1/500) 1 1 1 0 1 [] [1; 0; 2] [0; 0; -1] false [] false false [] true [-1; 1] [1/2] (1/2) 0 0 3 in
-  is_derive (F 1 (1/500) 1 1 1 0 1 [] [1; 0; 2] [0; 0; -1] false [] false false [] true [-1; 1] [1/2] (1/2) 0 0) 3
-    (Kval (1/500) 1 1 1 0 1 [] [1; 0; 2] [0; 0; -1] false [] false false [] [1/2] (1/2) [adot]
-       (F 1 (1/500) 1 1 1 0 1 [] [1; 0; 2] [0; 0; -1] false [] false false [] true [-1; 1] [1/2] (1/2) 0 0 3)).
+  let adot := Adot 1 (1/500) 1 1 1 0 1 [] [1; 0; 2] [0; 0; -1] false [] false false [] true [-1; 1] 1 [-1; 1] [1/2] (1/2) 0 0 3 in
+  is_derive (F 1 (1/500) 1 1 1 0 1 [] [1; 0; 2] [0; 0; -1] false [] false false [] true [-1; 1] 1 [-1; 1] [1/2] (1/2) 0 0) 3
+    (Kval (1/500) 1 1 1 0 1 [] [1; 0; 2] [0; 0; -1] false [] false false [] true [-1; 1] 1 [-1; 1] [1/2] (1/2) 0 0 [adot] 3
+       (F 1 (1/500) 1 1 1 0 1 [] [1; 0; 2] [0; 0; -1] false [] false false [] true [-1; 1] 1 [-1; 1] [1/2] (1/2) 0 0 3)).
 Proof.
-  cbv zeta. apply actuator_vel_deriv_affine.
-  - split; discriminate.
-  - split; discriminate.
+  cbv zeta. apply actuator_vel_deriv.
+  - discriminate.
+  - discriminate.
   - right. split; [discriminate | reflexivity].
-  - right. right. change (vget [-1; 1] 0) with (-1). change (vget [-1; 1] 1) with 1. lra.
   - intros _. reflexivity.
+  - intro Hc. discriminate Hc.
   - left. reflexivity.
 Qed.
